@@ -318,6 +318,39 @@ def check_cdf_differences_wrap(ctx, F):
         else:
             ctx.bad('R2', role, b.defpath, 'two cdf entries are subtracted with a plain `-`: with PRECISION == Probability::BITS the final entry 1 << PRECISION is stored as 0, so the last symbol\'s probability is `0 - left`, '
                     'which overflows (a panic when decoding a quantile in the last bin)', key=key, loc=rules.loc(b))
+    # the same in constructors: a function that appends the closing entry `wrapping_pow2(PRECISION)` to a stream of cumulatives
+    # (iter::once / chain) and lets a closure subtract consecutive items
+    for b in F.bodies:
+        if b.promoted is not None or '::tests::' in b.defpath or 'model::categorical' not in b.defpath or b.dk not in ('Fn', 'AssocFn'):
+            continue
+        try:
+            ev, paths = rules.evaluate(b)
+        except sym.TooManyPaths:
+            continue
+        closing = False
+        for r in paths or []:
+            for e in r.events:
+                if e['kind'] == 'call' and str(e['callee']).endswith(('iter::once', 'sources::once::once', 'Iterator::chain')) and any(
+                        sym.contains(a, lambda z: isinstance(z, tuple) and z and z[0] == 'call' and str(z[1]).endswith('wrapping_pow2')) for a in e.get('args_val') or [] if isinstance(a, tuple)):
+                    closing = True
+        if not closing:
+            continue
+        plain = []
+        for cb in F.closures_of(b):
+            for _, t in cb.calls():
+                c = rules.callee(t)
+                if c and c.get('def') == 'core::ops::Sub::sub' and c.get('args'):
+                    ty = F.types[c['args'][0]['ty']] if isinstance(c['args'][0], dict) and 'ty' in c['args'][0] else {}
+                    if ty.get('k') == 'param':
+                        plain.append(cb)
+        n += 1
+        ctx.touch(b)
+        key = 'R2/cdf-difference-wraps/' + b.defpath
+        role = 'a probability computed as the difference of two cdf entries uses wrapping subtraction'
+        if plain:
+            ctx.bad('R2', role, b.defpath, 'the stream of cumulatives is closed with wrapping_pow2(PRECISION) (0 at PRECISION == Probability::BITS) and a closure subtracts consecutive entries with a plain `-`: the last symbol\'s probability is `0 - left`, which overflows, so the constructor panics at full precision although its siblings build the same model', key=key, loc=rules.loc(plain[0]))
+        else:
+            ctx.ok('R2', role, b.defpath, 'closing entry appended; no plain subtraction of probabilities in the closures', key=key)
     if n < 4:
         ctx.unresolved('R2', 'a probability computed as the difference of two cdf entries uses wrapping subtraction', 'stream::model::categorical', 'only %d functions with a cdf difference found (5 confirmed by reading)' % n, key='R2/cdf-difference-wraps/floor')
 
@@ -385,6 +418,7 @@ def check_sign_safe_doubling(ctx, F):
             continue
         preds_txt = _impl_preds(F, b)
         sites = {}
+        unguarded = set()
         for r in paths:
             # values a local takes: at the end of the path, or when an inner loop is entered (the doubling is followed by one)
             cands = list(r.store.items())
@@ -401,6 +435,7 @@ def check_sign_safe_doubling(ctx, F):
                 if ty in UNSIGNED or any(p.startswith(ty + ': ') and p.endswith('Unsigned') for p in preds_txt):
                     continue
                 ordered = ne_only = False
+                mentioned = any(sym.contains(t, lambda z: z == v) for t, val, _ in r.preds)
                 for t, val, _ in r.preds:
                     if not (t[0] == 'bin' and v in (t[2], t[3])):
                         continue
@@ -418,6 +453,8 @@ def check_sign_safe_doubling(ctx, F):
                 key = (k, ty)
                 cur = sites.get(key, (True, False))
                 sites[key] = (cur[0] and ordered, cur[1] or (ne_only and not ordered))
+                if not mentioned:
+                    unguarded.add(key)
         for (k, ty), (ok, ne_only) in sorted(sites.items()):
             n += 1
             ctx.touch(b)
@@ -428,6 +465,8 @@ def check_sign_safe_doubling(ctx, F):
             elif ne_only:
                 ctx.bad('R2', role, b.defpath, 'the step (type parameter `%s`, no `Unsigned` bound) is doubled under the guard `step << 1 != 0` only: for a signed symbol type such as i8 or i16 the doubled value can be negative (64i8 << 1 == -128), '
                         'after which the search never terminates or overflows' % ty, key=okey, loc=rules.loc(b))
+            elif (k, ty) in unguarded:
+                ctx.bad('R2', role, b.defpath, 'the step (type parameter `%s`) is doubled on a path that never looks at the doubled value: once it reaches the top bit of the type it becomes 0 (unsigned) or negative (signed), and the search that follows never terminates - reachable by decoding a quantile in the far tail of a narrow symbol type' % ty, key=okey, loc=rules.loc(b))
             else:
                 ctx.unresolved('R2', role, b.defpath, 'doubling of a %s-typed loop variable without a recognised guard' % ty, key=okey)
     ctx.extra['doubling_sites'] = n
